@@ -41,10 +41,10 @@ type c04Spec struct {
 	Calls           []c04Call `json:"calls"`
 	EndAt           int       `json:"end_ms"`
 	NoStandaloneSSE bool      `json:"no_standalone_sse,omitempty"`
-	Version         string    `json:"version,omitempty"`     // sdk mode: requested protocol version ("" = the client's default)
-	Propagate       bool      `json:"propagate,omitempty"`   // stateless HTTP: StreamableHTTPOptions.PropagateRequestCancellation
-	BlockAt         int       `json:"block_at_ms,omitempty"` // sdk mode: a client notification sent at this instant whose server handler blocks ...
-	BlockMs         int       `json:"block_ms,omitempty"`    // ... for this long (0: none): cancellation notices must not queue behind it
+	Version         string    `json:"version,omitempty"`      // sdk mode: requested protocol version ("" = the client's default)
+	Propagate       bool      `json:"propagate,omitempty"`    // stateless HTTP: StreamableHTTPOptions.PropagateRequestCancellation
+	BlockAt         int       `json:"block_at_ms,omitempty"`  // sdk mode: a client notification sent at this instant whose server handler blocks ...
+	BlockMs         int       `json:"block_ms,omitempty"`     // ... for this long (0: none): cancellation notices must not queue behind it
 	DrainCancel     int       `json:"drain_cancel,omitempty"` // sdk mode, persistent transports: at the end this many parked calls are cancelled while the callee is already draining under a graceful Close
 }
 
